@@ -122,6 +122,20 @@ CLAIMS = {
              "defect repaired (merge_cells converted only interior cells), two recorded as open known findings (merge map not shifted "
              "by insert/delete; 16-bit packing vs 1,000,000 rows). Trusted: " + TB,
         technique="contract-based deductive verification of the kernels + bounded run-time-contract stand-in (mixed)"),
+    "C17": dict(
+        category="proof", design="DESIGN.md section 7 C17",
+        text="Contract-based deductive proof on the real container-loading layer (iwork.py, iwafile.py): is_iwa_file is proved for ALL "
+             "byte strings never to raise and to return True exactly when the data is a sequence of well-formed chunk frames (loop "
+             "invariant against a recursive framing spec); exception-escape contracts, computed modularly, show that from "
+             "IWork._store_blob, _open_zipfile, _read_objects_from_zipfile (recursive), _read_objects_from_package, document_version and "
+             "IWork.open only FileError/FileFormatError/UnsupportedError can reach the caller (plus OSError, which is not a property "
+             "of the file) - every other exception class that a callee may raise is shown to be caught and converted. Relative to the "
+             "ASSUMED raises-sets of zipfile/plistlib/protobuf calls, which are listed in the evidence. The model-level part and real "
+             "damaged files: bounded fault-injection stand-in (truncations, bit flips, per-member faults).",
+        note="Assumes: the listed raises-sets of library calls (ZipFile, read, getinfo, plistlib.loads, from_buffer), transparent context "
+             "managers, only Exception subclasses considered, OSError allowed to propagate. Four groups of genuine defects repaired by "
+             "six fix: commits. Trusted: " + TB,
+        technique="contract-based deductive verification: exception-escape contracts (path-sensitive raises sets) + a functional loop-invariant proof of the framing sniffer; bounded fault injection as stand-in"),
 }
 NA_REASON = "check not built yet (build in progress; see DESIGN.md section 7 for the plan)"
 
